@@ -57,6 +57,7 @@ func checkC10(p *Program, r *Report) {
 	c10Applied(p, r, m, sums)
 	c10GuardSiblings(p, r, m, sums)
 	c10FailureRaises(p, r, m)
+	c10ContainerConverters(p, r, m, "C10.R12")
 }
 
 func c10Sinks(p *Program, r *Report, m *vmModel, sums *typeSummaries) {
@@ -1181,4 +1182,113 @@ func closedReceiveEdge(b *ssa.BasicBlock) bool {
 		}
 	}
 	return false
+}
+
+// c10ContainerConverters (R12): a helper that converts a container by building a new one (it calls reflect.MakeMap /
+// MakeSlice) hands every element of the source to the element conversion as the iteration yields it, and gives back the
+// zero (nil) container only for a nil source. A nil map in place of an empty one is no reference value: what is stored
+// through an alias taken before the first write is lost; and an element unwrapped on the way loses its nil.
+func c10ContainerConverters(p *Program, r *Report, m *vmModel, rule string) {
+	n := 0
+	for _, fn := range m.fns {
+		sig := fn.Signature
+		if sig.Recv() != nil || sig.Params().Len() < 2 || sig.Results().Len() != 2 || !isReflectValue(sig.Params().At(0).Type()) || !isReflectValue(sig.Results().At(0).Type()) || len(fn.Blocks) == 0 {
+			continue
+		}
+		builds := false
+		for _, b := range fn.Blocks {
+			for _, in := range b.Instrs {
+				if c, ok := in.(*ssa.Call); ok {
+					if o := calleeObj(c); o != nil && o.Pkg() != nil && o.Pkg().Path() == "reflect" && (o.Name() == "MakeMap" || o.Name() == "MakeMapWithSize" || o.Name() == "MakeSlice") {
+						builds = true
+					}
+				}
+			}
+		}
+		if !builds {
+			continue
+		}
+		n++
+		src := fn.Params[0]
+		// (a) zero container only for a nil source
+		k := 0
+		for _, b := range fn.Blocks {
+			ret, ok := b.Instrs[len(b.Instrs)-1].(*ssa.Return)
+			if !ok || len(ret.Results) != 2 {
+				continue
+			}
+			zc, ok := ret.Results[0].(*ssa.Call)
+			if !ok || !isFuncNamed(calleeObj(zc), "reflect", "", "Zero") {
+				continue
+			}
+			k++
+			guarded := false
+			for d := b; d != nil && d.Idom() != nil; d = d.Idom() {
+				id := d.Idom()
+				iff, ok := id.Instrs[len(id.Instrs)-1].(*ssa.If)
+				if !ok {
+					continue
+				}
+				cond, neg := iff.Cond, false
+				if u, ok := cond.(*ssa.UnOp); ok && u.Op == token.NOT {
+					cond, neg = u.X, true
+				}
+				c, ok := cond.(*ssa.Call)
+				if !ok || len(c.Call.Args) == 0 || c.Call.Args[0] != ssa.Value(src) {
+					continue
+				}
+				switch reflectMethod(c) {
+				case "IsNil":
+					if (!neg && edgeOnly(id, 0, d)) || (neg && edgeOnly(id, 1, d)) {
+						guarded = true
+					}
+				case "IsValid":
+					if (!neg && edgeOnly(id, 1, d)) || (neg && edgeOnly(id, 0, d)) {
+						guarded = true
+					}
+				}
+			}
+			r.Check(guarded, rule, fmt.Sprintf("%s|zero container #%d only for a nil source", funcName(fn), k), p.Pos(instrPos(ret)), "returned on the side where the source is nil",
+				"the converter returns the zero (nil) container for a source that is not nil: an empty map stored into a typed slot becomes a nil map, which is not a reference value (writes through an alias taken before the first store are lost)")
+		}
+		// (b) what goes into the element conversion is what the iteration yields, untouched
+		k = 0
+		for _, b := range fn.Blocks {
+			for _, in := range b.Instrs {
+				c, ok := in.(*ssa.Call)
+				if !ok || len(c.Call.Args) < 2 || !isReflectValue(c.Call.Args[0].Type()) {
+					continue
+				}
+				callee := staticCallee(c)
+				if callee == nil || callee.Pkg != m.sp || callee == fn {
+					continue
+				}
+				if callee.Signature.Results().Len() != 2 || !isReflectValue(callee.Signature.Results().At(0).Type()) {
+					continue
+				}
+				k++
+				a := c.Call.Args[0]
+				if sv := spilledValue(a); sv != nil {
+					a = sv
+				}
+				okSrc := false
+				if ac, ok := a.(*ssa.Call); ok {
+					if o := calleeObj(ac); o != nil && o.Pkg() != nil && o.Pkg().Path() == "reflect" {
+						switch o.Name() {
+						case "Key", "Value", "MapIndex", "Index":
+							okSrc = true
+						}
+					}
+				}
+				if ia, ok := a.(*ssa.UnOp); ok {
+					if _, isIdx := ia.X.(*ssa.IndexAddr); isIdx {
+						okSrc = true // mapKeys[i]
+					}
+				}
+				r.Check(okSrc, rule, fmt.Sprintf("%s|element conversion #%d takes the element as iterated", funcName(fn), k), p.Pos(c.Pos()), "the argument is the key / value / element the iteration yields",
+					"the element is altered before it is handed to the element conversion (unwrapped without the nil test, a nil entry becomes the invalid reflect.Value: the entry is dropped or the call fails instead of yielding the zero value)")
+			}
+		}
+	}
+	r.Floor(rule, n, 2)
 }
